@@ -201,6 +201,9 @@ theorem numSysLinF_ok {s : EqSystem} {prec : List Bool} {small : ℝ} {y p r : L
   unfold numSysLinF at h
   by_cases hshape : shapeOk s y p = true
   · simp only [hshape, Bool.not_true, Bool.false_eq_true, ↓reduceIte] at h
+    by_cases hempty : s.rxns.isEmpty = true
+    · simp [hempty] at h
+    simp only [hempty, Bool.false_eq_true, ↓reduceIte] at h
     cases hA : stoichs s (nonPrecipRids s prec) with
     | error e => simp [hA] at h
     | ok A =>
@@ -559,15 +562,20 @@ theorem zeroDiv_false_of_ne_zero (y : List ℝ) (row : List ℤ) (hy : ∀ x ∈
 /-- for a homogeneous system, well-shaped arguments and a state without zero entries the residual
     function returns a vector (it does not raise) -/
 theorem numSysLinF_defined {s : EqSystem} (hs : Homogeneous s) (prec : List Bool) (small : ℝ) {y p : List ℝ}
-    (hshape : shapeOk s y p = true) (hy : ∀ x ∈ y, x ≠ 0) : ∃ r, numSysLinF s prec small y p = .ok r := by
+    (hshape : shapeOk s y p = true) (hnr : 0 < s.nr) (hy : ∀ x ∈ y, x ≠ 0) :
+    ∃ r, numSysLinF s prec small y p = .ok r := by
   obtain ⟨b, hb⟩ := matDotVec_compMat_isSome s hshape
+  have hempty : s.rxns.isEmpty = false := by
+    cases hr : s.rxns with
+    | nil => simp [EqSystem.nr, hr] at hnr
+    | cons a as => rfl
   have hz : (netStoichs s).any (zeroDiv y) = false := by
     rw [List.any_eq_false]
     intro row _
     simp [zeroDiv_false_of_ne_zero y row hy]
   unfold compMat at hb
   unfold numSysLinF
-  simp only [hshape, Bool.not_true, Bool.false_eq_true, ↓reduceIte, stoichs_homog hs, prodPow, hz, hb]
+  simp only [hshape, Bool.not_true, Bool.false_eq_true, ↓reduceIte, hempty, stoichs_homog hs, prodPow, hz, hb]
   exact ⟨_, rfl⟩
 
 /-! ## Variable transforms -/
